@@ -356,6 +356,13 @@ func c19SizesSpecial(t *testing.T, job *Job, res *Result) *Result {
 	o.FloorSegmentSize = pick(1, 2, 10, 2000)
 	o.MaxSegmentSize = pick(20, 100, 5000, 5000000)
 	o.TierGrowth = float64(pick(2, 3, 10))
+	if o.FloorSegmentSize >= 10 && rng.Next()%3 == 0 {
+		// fractional growth factors (only with a floor of 10 or more: the
+		// planner's steps are whole numbers, and the one tier of slack in
+		// logBudget covers the truncation only when the first step is not
+		// tiny)
+		o.TierGrowth = []float64{1.5, 2.5, 1.25, 3.5}[rng.Next()%4]
+	}
 	o.ReclaimDeletesWeight = float64(pick(0, 1, 2, 3))
 	var segs []*stubSeg
 	nextID := uint64(1)
